@@ -154,9 +154,20 @@ fn ops_of(proto: &Proto, v: &Variation) -> Vec<Op> {
 }
 
 fn check_case(ctx: &Ctx, cfg: &Config, ops: &[Op]) {
+    check_case_opt(ctx, cfg, ops, false)
+}
+
+/// `build_may_fail`: the configuration asks the builder / parser for something C01 does not promise (a PSK for a
+/// name without psk modifier; a name that spells its modifiers in an unusual order - whether that parses is C13's
+/// clause). If snow refuses it there is no message to compare; if it accepts, the bytes are judged as always.
+fn check_case_opt(ctx: &Ctx, cfg: &Config, ops: &[Op], build_may_fail: bool) {
     let e = sess::run(cfg, ops);
     ctx.add(&ctx.evaluations, 1);
     ctx.add(&ctx.transitions, e.steps.len() as u64);
+    if build_may_fail && e.build_err.is_some() {
+        ctx.count("configuration refused at build time (not judged by C01)", 1);
+        return;
+    }
     if let Some(b) = &e.build_err {
         ctx.violation("build of an honest configuration failed", format!("{}: {b}", cfg.name), sess::case_json(cfg, ops));
         return;
@@ -346,7 +357,7 @@ pub fn run(tier: Tier) -> i32 {
                 v.mode = Mode::ST;
             }
             let cfg = cfg_of(p, &v, if j % 4 >= 2 { Backend::Ring } else { Backend::Default });
-            check_case(&ctx, &cfg, &ops_of(p, &v));
+            check_case_opt(&ctx, &cfg, &ops_of(p, &v), true);
         });
     }
     // part 2: bound-1 input variations
@@ -403,7 +414,7 @@ pub fn run(tier: Tier) -> i32 {
                 }
             }
             ops.extend(ops_of(p, &d));
-            check_case(&ctx, &cfg, &ops);
+            check_case_opt(&ctx, &cfg, &ops, p.psks.is_empty());
         });
         ctx.count("psk_supplied_late_or_unused_cases", suite.len() as u64);
     }
